@@ -30,6 +30,9 @@ PINF = C.PINF
 NINF = C.NINF
 # per job: model SQL integer / integer exactly (truncation) instead of tainting it as the accepted "integer /" difference
 INT_DIV_EXACT = [False]
+# set during execute(): an ORDER BY met a missing sort key while the known finding order_rows_null_key is listed -- the row SEQUENCE of this result
+# is then covered by that finding and the comparison must be a multiset one, whatever the other side says about its own order
+ORDER_KF = [False]
 
 
 def _inf_sign(c):
@@ -176,11 +179,24 @@ class Parser:
         return ("with", ctes, self.select_union())
 
     def select_union(self):
+        bare = not self.at("OP", "(")
         q = self.select_or_paren()
         while self.at("KW", "UNION"):
+            if bare and q[0] == "select" and (q[5] is not None or q[6] is not None):
+                # SQLite and PostgreSQL reject an un-parenthesised branch that carries its own ORDER BY / LIMIT in front of UNION ALL
+                raise SQLExecError("ORDER BY / LIMIT clause should come after UNION ALL not before")
             self.eat()
             self.eat("KW", "ALL")
-            q = ("union", q, self.select_or_paren())
+            bare = not self.at("OP", "(")
+            last = self.select_or_paren()
+            if bare and last[0] == "select" and (last[5] is not None or last[6] is not None):
+                # a trailing ORDER BY / LIMIT after the last un-parenthesised branch belongs to the WHOLE compound select
+                order, limit = last[5], last[6]
+                last = last[:5] + (None, None)
+                q = ("select", [("*", None)], ("sub", ("union", q, last), "__compound__"), None, None, order, limit)
+                bare = False
+                continue
+            q = ("union", q, last)
         return q
 
     def select_or_paren(self):
@@ -929,6 +945,7 @@ class Interp:
                             if limit is not None and limit < len(keyed):
                                 raise KnownFindingPath("order_rows_null_key")
                             null_key = True
+                            ORDER_KF[0] = True
             ties = []
 
             def cmpo(i, j):
@@ -1113,4 +1130,5 @@ def execute(sql, tables, dialect="sqlite", udfs=None):
     """tables: {name: (cols, rows)} with rows = list of lists of Cells"""
     ast = parse(sql, dialect)
     env = {k: Rel(cols, [list(r) for r in rows]) for k, (cols, rows) in tables.items()}
+    ORDER_KF[0] = False
     return Interp(dialect, udfs).run(ast, env)
